@@ -137,6 +137,10 @@ add("s_seq_until_when", Decl("SSeqUntilWhen", [("t", Int(1)),
                                                ("z", Int(1))]), 4, 5, "S", "seq", "until", "when", "ctl8x")
 add("s_seq_aligned", Decl("SSeqAligned", [("a", Int(1)), ("s", Seq(Int(1), count=2, aligned=2)), ("z", Int(1))]),
     6, 7, "S", "seq", "count", "seqalign", "absolute")
+add("s_seq_until_aligned", Decl("SSeqUntilAligned", [("s", Seq(Int(1), until=Fn("lambda pkt, **k: pkt.s[-1] == 0"), aligned=2)),
+                                                    ("z", Int(1))]), 5, 6, "S", "seq", "until", "seqalign", "absolute", "move")
+add("s_seq_until_aligned3", Decl("SSeqUntilAligned3", [("a", Int(1)), ("s", Seq(Int(2), until=Fn("lambda pkt, **k: len(pkt.s) >= 2"), aligned=3)),
+                                                      ("z", Int(1))]), 9, 10, "S", "seq", "until", "seqalign", "absolute", "move")
 add("s_seq_ref", Decl("SSeqRef", [("n", Bits(2)), ("p", Bits(6)), ("s", Seq(Ref(Leaf2), count=Fld("n"))), ("z", Int(1))]),
     6, 8, "S", "seq", "count", "ref")
 add("s_seq_data_mark", Decl("SSeqDataMark", [("s", Seq(Data(until=b"\x00"), count=2)), ("z", Int(1))]),
@@ -293,10 +297,25 @@ add("g_var_between", Decl("GVarBetween", [("a", Int(1)), ("n", Bits(2)), ("p", B
 add("g_data_in_run", Decl("GDataInRun", [("d", Data(3)), ("a", Int(1)), ("e", Data(1)), ("b", Int(2, True))]), 7, 8, "G", "flat")
 add("g_cls_little", Decl("GClsLittle", [("a", Int(2)), ("b", Int(2, endian="big")), ("c", Int(4)), ("d", Int(3))],
                          endianness="little"), 11, 12, "G", "flat")
+add("g_bridge", Decl("GBridge", [("a", Int(2, endian="little")), ("d", Data(2)), ("b", Int(2, endian="big")), ("e", Data(1)),
+                                 ("c", Int(4, True, "little")), ("f", Data(1)), ("g", Int(8))]), 20, 21, "G", "flat")
+add("g_bridge_cls", Decl("GBridgeCls", [("d", Data(1)), ("a", Int(2)), ("e", Data(2)), ("b", Int(2, endian="big")), ("c", Int(1))],
+                         endianness="little"), 8, 9, "G", "flat")
 add("g_loops", Decl("GLoops", [("t", Bits(1)), ("n", Bits(2)), ("p", Bits(5)), ("s", Seq(Int(2), count=Fld("n"))),
                                ("o", Opt(Int(1), Fld("t"))), ("z", Int(2, endian="little")), ("y", Int(1))]), 8, 10, "G")
 add("g_moves", Decl("GMoves", [("a", Int(1)), ("b", Int(2).at(2)), ("c", Int(1)), ("d", Int(2).aligned(4, "innermost-pkt"))]),
     10, 11, "G", "move")
+
+
+# ----------------------------------------------------------------------------- U: user supplied defaults (C19)
+UD_Inner = Decl("UDInner", [("x", Int(1, default=7)), ("y", Data(2, default=b"hi"))])
+add("u_defaults", Decl("UDefaults", [("a", Int(2, default=513)), ("b", Bits(4, default=9)), ("c", Bits(4)),
+                                     ("d", Data(3, default=b"abc")), ("e", Data(until=b"\x00", default=b"zz")),
+                                     ("r", Ref(UD_Inner)), ("s", Seq(Int(1), count=2, default="[1, 2]")),
+                                     ("o", Opt(Int(1), Ex("a == 1"), default="5"))]), 4, 5, "U")
+add("u_opt_defaults", Decl("UOptDefaults", [("k", Int(1)), ("t", Opt(Int(2), Ex("k != 0"), default="7")),
+                                            ("g", Opt(Data(2), Ex("k != 0"), default="b'ab'")), ("n", Opt(Int(1), Ex("k == 2")))]),
+    4, 5, "U")
 
 
 def get(key):
@@ -307,9 +326,11 @@ def select(tier, *any_tags, exclude=(), families=None):
     """entries having at least one of any_tags (all entries when none given) and none of exclude"""
     out = []
     for key, e in CAT.items():
-        fam = [t for t in e["tags"] if t in ("S", "D", "N", "P", "G")]
+        fam = [t for t in e["tags"] if t in ("S", "D", "N", "P", "G", "U")]
         if families is not None and not (set(fam) & set(families)):
             continue
+        if "U" in fam and (families is None or "U" not in families):
+            continue      # user-default declarations are only meaningful for C19
         if any_tags and not (e["tags"] & set(any_tags)):
             continue
         if e["tags"] & set(exclude):
